@@ -36,6 +36,8 @@ def run(ctx):
                       "(_setup_refs, directly or via a callee); a rebuild outside the constructor first unwatches and resets ref_watchers", floor=3)
     ctx.rule("R08.b", "every resolve_ref/resolve_value call in class Parameters that computes a link's dependencies or value passes recursive=<that parameter>.nested_refs", floor=5)
     ctx.rule("R08.c", "the sync's own writes (update in _sync_refs/_async_ref) happen inside a `with _syncing(...)` scope, and the setter reads the syncing set before deciding to drop a link", floor=3)
+    ctx.rule("R08.d", "every reference is installed: in Parameter.__set__ the relink decision holds whenever _resolve_ref returned a reference (top-level disjunct `ref is not None`), "
+                      "and the constructor records refs[name] = ref under exactly `ref is not None`", floor=2)
     ctx.not_decided += ["that the parameter equals the reference's resolved value after arbitrary source histories (needs execution)"]
 
     # ----------------------------------------------------------- R08.a
@@ -156,6 +158,39 @@ def run(ctx):
         ctx.ok("R08.c", setter, reads[0], "the setter consults the syncing set")
     else:
         ctx.fail("R08.c", setter, setter.node, "Parameter.__set__ no longer consults the syncing set: every propagated update drops the link")
+
+    # ----------------------------------------------------------- R08.d
+    st_ = ctx.repo.method("param.parameterized.Parameter", "__set__")
+    scfg = ctx.facts.cfg(st_)
+    rl = [n for n in scfg.live_nodes() for c in calls_in(n) if isinstance(c.func, ast.Attribute) and c.func.attr in ("_relink", "_update_ref")]
+    ctx.require(rl, "Parameter.__set__ no longer installs links (_relink/_update_ref)")
+    from engine.facts import reaching_defs
+    for n in rl:
+        guards = [d for d in scfg.dominating(n) if d.kind == "br" and d.polarity is True and isinstance(d.ast, ast.Name)]
+        okd = False
+        why = "the link installation is not guarded by a relink flag"
+        for gd in guards[:1]:
+            defs = [d for d in reaching_defs(scfg, gd, gd.ast.id) if isinstance(d.ast, ast.Assign)]
+            exprs = []
+            for d in defs:
+                v = d.ast.value
+                if isinstance(d.ast.targets[0], ast.Tuple) and isinstance(v, ast.Tuple):
+                    for a, b in zip(d.ast.targets[0].elts, v.elts):
+                        if isinstance(a, ast.Name) and a.id == gd.ast.id:
+                            v = b
+                exprs.append(v)
+            live = [e for e in exprs if not (isinstance(e, ast.Constant) and e.value is False)]
+            okd = bool(live) and all(isinstance(e, ast.BoolOp) and isinstance(e.op, ast.Or) and any(norm(v) in ("ref is not None",) for v in e.values) for e in live)
+            if not okd:
+                why = "the relink decision `%s` does not hold for every reference returned by _resolve_ref (no top-level disjunct `ref is not None`): some assigned references are not (re)installed" % (
+                    norm(live[0]) if live else "?")
+        if okd:
+            ctx.ok("R08.d", st_, n, "relink holds whenever a reference was assigned")
+        else:
+            ctx.fail("R08.d", st_, n, why, key=st_.qualname + "::conditional-relink",
+                     input="nested_refs: assign the same (mutated) container again -> newly contained sources are never watched")
+    from checks.shared import ctor_records_every_ref
+    ctor_records_every_ref(ctx, "R08.d")
 
     # the scope that marks the sync's own writes must itself be exception safe
     # (an instance of R05.a/R05.b on the syncing set): a leaked marker makes every
